@@ -273,9 +273,12 @@ def strategy_opts(st):
     kw, adv = {}, None
     if name == 'shuffle_true': seed = 1; kw['shuffle'] = True
     elif seed: kw['shuffle'] = seed
-    if name == 'parallel_true': kw['parallel'] = True
-    elif name == 'num_workers': kw['num_workers'] = 2
-    elif name == 'parallel_int': kw['parallel'] = 2
+    w = st.get('workers')              # size of the library's own (default) process pool, where the strategy has one
+    if name == 'parallel_true':
+        kw['parallel'] = True
+        if w: kw['num_workers'] = w
+    elif name == 'num_workers': kw['num_workers'] = w or 2
+    elif name == 'parallel_int': kw['parallel'] = w or 2
     elif name in ('cf_thread', 'cf_process', 'mp_pool', 'mp_thread'): kw['executor'] = get_executor(name)
     elif name in ('adv_submit', 'adv_apply'):
         adv = AdversarialExecutor(st.get('adv_seed', 0), 'submit' if name == 'adv_submit' else 'apply')
